@@ -262,6 +262,9 @@ def u_shapes(c):
         why = None
     c.oblige("post/the-fetch-returns-what-a-strict-reader-reads-or-fails-when-it-rejects", why is None)
     c.oblige("post/the-fetch-completes-exactly-once-and-nothing-is-logged-as-an-error", r["completions"] == [1] and r["errors_logged"] == [])
+    t_sub = [e[2] for e in r["log"] if e[0] == "submitted"]
+    t_done = [e[2] for e in r["log"] if e[0] == "completed"]
+    c.oblige("post/the-outcome-is-there-as-soon-as-the-stream-has-been-read-not-when-a-timeout-fires", bool(t_done) and t_done[0] - t_sub[0] < 2.0)
 
 
 @unit("C08", "client.max_body_size", [(M, "HTTP1Connection._read_body"), (M, "_GzipMessageDelegate.data_received")])
